@@ -131,7 +131,7 @@ def kani_phase(prop, tier, known, res, work, only_set):
     plan = []  # (ob, role)
     for o in select(obs, tier):
         role = o.get("role", "deciding")
-        if role in ("fallback", "excl"):
+        if role in ("fallback", "excl", "native_fallback"):
             continue  # run on demand / via its owner
         if only_set and o["name"] not in only_set:
             continue
@@ -197,6 +197,12 @@ def handle_kani_failure(prop, o, by_name, crate_dir, features, timeout, res, rec
         fbs = [by_name[n] for n in o.get("fallback", "").split(",") if n and n in by_name]
         found = False
         for fb in fbs:
+            if fb.get("role") == "native_fallback":
+                if native_fallback_report(prop, fb, features, res, units,
+                                          note="reached through failed plumbing obligation %s" % o["name"]):
+                    found = True
+                    break
+                continue
             single = K.run_single_with_playback(crate_dir, fb["_full"], features, timeout)
             st, why = K.classify(single["result"])
             if st == "failed":
@@ -256,6 +262,25 @@ def confirm_and_report(prop, o, single, crate_dir, features, res, units, note=""
     dump_json(replay_path, doc)
     if not any(v[0] == o["name"] for v in res.violations):
         res.violations.append((o["name"], replay_path, suffix))
+    return True
+
+
+def native_fallback_report(prop, fb, features, res, units, note=""):
+    """A fallback made of concrete cases only: compiled by rustc against the staged real crate and executed."""
+    cid = prop["id"]
+    tname = "verif_native_%s" % fb["name"]
+    code = "#[test]\nfn %s() {\n    %s();\n}" % (tname, fb["name"])
+    reproduced, out = replay_native(prop, fb["_unit"], units, {"code": code, "test_name": tname}, features)
+    if not reproduced:
+        return False
+    replay_path = os.path.join(REPLAY_DIR, "%s-%s.json" % (cid, fb["name"]))
+    dump_json(replay_path, {"property": cid, "obligation": fb["name"], "statement": fb.get("stmt", ""),
+                            "function": fb.get("fn", ""), "backend": "native (rustc, debug profile) concrete cases",
+                            "unit": os.path.relpath(fb["_unit"].path, VERIF), "harness": fb["_full"],
+                            "features": features, "note": note, "concrete_playback_test": code, "test_name": tname,
+                            "native_replay": {"reproduced": True, "output_tail": tail(out, 6000)}})
+    if not any(v[0] == fb["name"] for v in res.violations):
+        res.violations.append((fb["name"], replay_path, ""))
     return True
 
 
